@@ -267,6 +267,8 @@ def verdict(pid, tier, seed, mod, results, metas, t0, problems, replay=False,
             reasons.append('only %d of %d cases reported' % (len(results), expected))
         if len(judged) < min_judged:
             reasons.append('judged %d < floor %d' % (len(judged), min_judged))
+        if sum(errors.values()) > max(10, 0.1 * len(results)):
+            reasons.append('%d cases ended in a harness error' % sum(errors.values()))
         if len(sigs) < min_nontriv:
             reasons.append('distinct non-trivial %d < floor %d' % (len(sigs), min_nontriv))
         for a in getattr(mod, 'ANCHORS', []):
@@ -330,6 +332,9 @@ def verdict(pid, tier, seed, mod, results, metas, t0, problems, replay=False,
           'skipped=%d wall=%.1fs' % (pid, tier, seed, len(results), len(judged),
                                      len(sigs), sum(errors.values()),
                                      sum(skipped.values()), wall))
+    if errors:
+        top = sorted(errors.items(), key=lambda kv: -kv[1])[:4]
+        print('harness errors (cases without a verdict): %s' % json.dumps(dict(top)))
     for mech, (k, n) in known_seen.items():
         print('KNOWN-FINDING: property=%s %s [%s, seen in %d cases]' %
               (pid, k.get('what', mech), mech, n))
